@@ -318,8 +318,34 @@ fn run(ctx: &RunCtx) -> Report {
     let rawnet = RawNet::new();
     let n_raw = rng.usize(5, 70);
     let focus: Id = rng.id();
+    // two further plan elements (own random stream, the other draws stay as they were):
+    // *mixed addresses* (1 run in 3): a quarter of the peers live on an address of the other class (LAN,
+    // loopback or link-local addresses in a public plan, routable ones in a private plan), and reads come
+    // from both classes of source address; *siblings* (1 run in 3): some peers have a second node on the
+    // same IP (another port) whose id shares the first 21 bits - the table holds one of the two.
+    let mut xr = Rng::new(crate::rng::key(ctx.seed, &[crate::rng::tag("c11-mixed-siblings")]));
+    let mixed = xr.chance(1, 3);
+    let siblings = xr.chance(1, 3);
+    if mixed {
+        report.probe("mixed_address_class_runs", 1);
+    }
+    let mut sibling_specs: Vec<(Id, SocketAddrV4, Option<Vec<u8>>)> = vec![];
     for i in 0..n_raw {
         let ip = if public { pub_ip(&mut rng) } else { priv_ip(200 + i) };
+        let ip = if mixed && xr.chance(1, 4) {
+            if public {
+                match xr.below(4) {
+                    0 => std::net::Ipv4Addr::new(192, 168, xr.below(256) as u8, xr.range(1, 254) as u8),
+                    1 => std::net::Ipv4Addr::new(127, 0, xr.below(256) as u8, xr.range(1, 254) as u8),
+                    2 => std::net::Ipv4Addr::new(169, 254, xr.below(256) as u8, xr.range(1, 254) as u8),
+                    _ => priv_ip(300 + i),
+                }
+            } else {
+                pub_ip(&mut xr)
+            }
+        } else {
+            ip
+        };
         let addr = SocketAddrV4::new(ip, 6881);
         let mut id = rng.id();
         if rng.chance(1, 3) {
@@ -334,8 +360,25 @@ fn run(ctx: &RunCtx) -> Report {
         if rng.chance(1, 3) {
             p.version = Some(b"LT\x01\x02".to_vec()); // not in the signed-peers table
         }
+        if siblings && xr.chance(1, 4) {
+            // same IP, next port; same first 21 bits (and the same BEP42 class as far as the id allows)
+            let mut sid = xr.id();
+            sid[..2].copy_from_slice(&id[..2]);
+            sid[2] = (id[2] & 0xf8) | (sid[2] & 0x07);
+            sid[19] = id[19];
+            sibling_specs.push((sid, SocketAddrV4::new(ip, 6882), p.version.clone()));
+        }
         rawnet.add(&sim, p);
     }
+    let n_first = n_raw;
+    for (sid, saddr, ver) in &sibling_specs {
+        let mut p = Peer::new(*sid, *saddr);
+        p.k = 20;
+        p.version = ver.clone();
+        rawnet.add(&sim, p);
+    }
+    report.probe("sibling_peers_same_ip_same_prefix", sibling_specs.len() as u64);
+    let n_raw = n_first + sibling_specs.len();
     for i in 0..n_raw {
         let mut knows: Vec<usize> = (0..n_raw).collect();
         rng.shuffle(&mut knows);
@@ -393,6 +436,11 @@ fn run(ctx: &RunCtx) -> Report {
     // raw readers
     let reader = SocketAddrV4::new(if public { pub_ip(&mut rng) } else { priv_ip(5000) }, 5000);
     let (_, _log) = logging_raw(&sim, reader);
+    // mixed runs: a second reader on an address of the other class
+    let reader2 = SocketAddrV4::new(if public { priv_ip(5002) } else { pub_ip(&mut xr) }, 5002);
+    if mixed {
+        let (_, _log2) = logging_raw(&sim, reader2);
+    }
     // 1 run in 3: the servers hold data for some of the targets that will be read - immutable values of
     // 1..1000 bytes and announced peers (a raw writer fetches a token and writes): replies that carry a
     // value carry the same node list
@@ -509,7 +557,8 @@ fn run(ctx: &RunCtx) -> Report {
             ..MsgOpts::default()
         };
         plan.push(format!("read[{i}] {q}({}) -> {}", hex8(&t), sim.node_addr(h)));
-        sim.raw_send(reader, sim.node_addr(h), krpc::query(&krpc::tid_bytes(1000 + i as u32), q, args, &opts));
+        let src = if mixed && r.chance(1, 2) { reader2 } else { reader };
+        sim.raw_send(src, sim.node_addr(h), krpc::query(&krpc::tid_bytes(1000 + i as u32), q, args, &opts));
         sim.run_for(if ageing { r.range(1, 25_000) } else { r.range(1, 300) } * MS);
     }
     sim.run_for(2 * SEC);
